@@ -30,21 +30,34 @@ import (
 //
 //	rein tf window | redialled n t…      (instants of multicast writes on the 2nd connection, from its creation)
 func vfRunReinit(t *testing.T, out *vfh.Out, tf, window time.Duration) {
-	out.Pending(fmt.Sprintf("runReinit linkDownAt=%v window=%v", tf, window))
+	vfRunReinitOutage(t, out, tf, window, 0)
+}
+
+// vfRunReinitOutage: as runReinit, but the interface stays unusable for `outage` after the link-state
+// change (every dial in that time finds the link not ready; the dialer retries with back-off): the
+// outage may outlast whatever the previous incarnation's multicast loop was waiting for.
+//
+//	reino tf window outage | redialled n t…
+func vfRunReinitOutage(t *testing.T, out *vfh.Out, tf, window, outage time.Duration) {
+	out.Pending(fmt.Sprintf("runReinit linkDownAt=%v window=%v outage=%v", tf, window, outage))
 	// K-2 (a timer of mdlayher/schedgroup armed late, about once in 500 scenarios, typically the
 	// very first one after a start) shows here as a second RA that is late or missing: such a run
 	// is repeated, up to twice; a defect of corerad shows every time
 	for attempt := 0; ; attempt++ {
-		line, late := vfRunReinitOnce(t, tf, window)
+		line, late := vfRunReinitOnce(t, tf, window, outage)
 		if !late || attempt == 2 {
-			out.Line(new(vfh.Toks).S(vfReinOp).I(int64(tf)).I(int64(window)).String(), line)
+			if outage > 0 {
+				out.Line(new(vfh.Toks).S("reino").I(int64(tf)).I(int64(window)).I(int64(outage)).String(), line)
+			} else {
+				out.Line(new(vfh.Toks).S(vfReinOp).I(int64(tf)).I(int64(window)).String(), line)
+			}
 			out.Flush()
 			return
 		}
 	}
 }
 
-func vfRunReinitOnce(t *testing.T, tf, window time.Duration) (line string, late bool) {
+func vfRunReinitOnce(t *testing.T, tf, window, outage time.Duration) (line string, late bool) {
 	synctest.Test(t, func(t *testing.T) {
 		st := &vfState{forwarding: true}
 		cfg := vfAdvConfig(200*time.Second, 600*time.Second, false, 1800*time.Second)
@@ -54,7 +67,14 @@ func vfRunReinitOnce(t *testing.T, tf, window time.Duration) (line string, late 
 		var mu sync.Mutex
 		var conns []*vfConn
 		d := system.NewDialer("vf0", st, system.Advertise, nil)
+		var downAt time.Time
 		d.DialFunc = func() (*system.DialContext, error) {
+			mu.Lock()
+			n, da := len(conns), downAt
+			mu.Unlock()
+			if n >= 1 && outage > 0 && time.Since(da) < outage {
+				return nil, system.ErrLinkNotReady
+			}
 			c := vfNewVfConn()
 			mu.Lock()
 			conns = append(conns, c)
@@ -69,8 +89,12 @@ func vfRunReinitOnce(t *testing.T, tf, window time.Duration) (line string, late 
 		go func() { done <- a.Run(ctx) }()
 		synctest.Wait()
 		time.Sleep(tf)
+		mu.Lock()
+		downAt = time.Now()
+		mu.Unlock()
 		watchC <- netstate.LinkDown
 		synctest.Wait()
+		time.Sleep(outage + 4*time.Second) // the dialer's back-off step is at most 3 s
 		time.Sleep(window)
 		synctest.Wait()
 		impl := new(vfh.Toks)
@@ -412,6 +436,11 @@ func verifReinit(t *testing.T, r *vfh.Rand, out *vfh.Out) {
 	}
 	for i := vfh.N(10, 300); i > 0; i-- {
 		vfRunReinit(t, out, time.Duration(r.Range(1, int64(300*time.Second)))|1, 5*time.Second)
+	}
+	// an outage that outlasts the wait the previous incarnation's loop had begun (16 s in the
+	// initial phase), and a window long enough for the whole initial sequence of the new one
+	for _, tf := range []time.Duration{1, 5 * time.Second, 20 * time.Second, 250 * time.Second} {
+		vfRunReinitOutage(t, out, tf|1, 60*time.Second, time.Duration(r.Range(17, 45))*time.Second)
 	}
 }
 
